@@ -600,6 +600,8 @@ def m_len(it, args, callee, depth):
     v = A.deref_all(it, args[0])
     if isinstance(v, tuple) and v[0] == "array":
         return len(v[1])
+    if isinstance(v, tuple) and v[0] == "symvec":
+        return ("sym", v[1])            # a vector of symbolic length
     return NotImplemented
 
 
@@ -610,6 +612,49 @@ def m_mem_replace(it, args, callee, depth):
     old = it.load_ref(r)
     it._store(r[1], r[2], list(r[3]), args[1])
     return old
+
+
+def _truth(it, v):
+    v = A.deref_all(it, v)
+    if not isinstance(v, int):
+        raise A.Undecided("predicate returned undecided value %r" % (v,))
+    return bool(v)
+
+
+def m_all(it, args, callee, depth):
+    for x in _drain(as_iter(it, args[0]), it, depth):
+        if not _truth(it, it.invoke(args[1], [x], depth)):
+            return 0
+    return 1
+
+
+def m_any(it, args, callee, depth):
+    for x in _drain(as_iter(it, args[0]), it, depth):
+        if _truth(it, it.invoke(args[1], [x], depth)):
+            return 1
+    return 0
+
+
+def m_position(it, args, callee, depth):
+    for i, x in enumerate(_drain(as_iter(it, args[0]), it, depth)):
+        if _truth(it, it.invoke(args[1], [x], depth)):
+            return A.some(i)
+    return A.NONE
+
+
+def m_find(it, args, callee, depth):
+    for x in _drain(as_iter(it, args[0]), it, depth):
+        cell = A.Frame(None)
+        cell.locals[0] = x
+        if _truth(it, it.invoke(args[1], [("ref", cell, 0, [])], depth)):
+            return A.some(x)
+    return A.NONE
+
+
+ALG_MODELS["core::iter::traits::iterator::Iterator::all"] = m_all
+ALG_MODELS["core::iter::traits::iterator::Iterator::any"] = m_any
+ALG_MODELS["core::iter::traits::iterator::Iterator::position"] = m_position
+ALG_MODELS["core::iter::traits::iterator::Iterator::find"] = m_find
 
 
 def m_each_ref(it, args, callee, depth):
